@@ -9,6 +9,22 @@ let () =
         res_s (fun (v, rest) -> string_of_val v ^ " " ^ hex_of_bytes rest)
           (M.dec_slice (strict = "1") (t ()) (bytes_of_hex h))
     | _ -> failwith "dec: args");
+  (* the six entry points on in-memory input *)
+  reg_typed "decm" (fun t args -> match args with
+    | [mode; strict; h] ->
+        let c = (strict = "1") and bs = bytes_of_hex h in
+        (match mode with
+         | "deserialize" | "deserialize_reader" ->
+             res_s (fun (v, rest) -> string_of_val v ^ " " ^ hex_of_bytes rest) (M.dec_slice c (t ()) bs)
+         | "try_from_slice" | "from_slice" ->
+             res_s (fun v -> string_of_val v ^ " -") (M.try_from_slice c (t ()) bs)
+         | "try_from_reader" | "from_reader" ->
+             res_s (fun (v, _) -> string_of_val v ^ " -") (M.try_from_reader M.slice_reader c (t ()) bs)
+         | _ -> failwith "decm: mode")
+    | _ -> failwith "decm: args");
+  reg_typed "objlen" (fun t args -> match args with
+    | [v] -> res_s string_of_n (M.object_length (t ()) (val_of (parse_sexp v)))
+    | _ -> failwith "objlen: args");
   reg_typed "logical" (fun t args -> match args with
     | [v] -> string_of_val (M.logical (t ()) (val_of (parse_sexp v)))
     | _ -> failwith "logical: args");
